@@ -208,6 +208,8 @@ func (p *Printer) bare(x *X) {
 		p.emit(LitSrc(x), x)
 	case "var":
 		p.emit(x.Name, x)
+	case "opq":
+		p.emit(ZooLeafOf(x).Src, x)
 	case "ptr":
 		p.emit("#", x)
 	case "un":
